@@ -292,9 +292,17 @@ Definition float_of_dec (neg : bool) (M E : Z) : num :=
          | DFin mant q => let (m', e') := shortest mant q in NDec (if neg then - m' else m') e' FFloat
          end.
 
+(* parse_float=decimal.Decimal: the digits of the literal, exactly (shown without trailing zeros) *)
+Definition decimal_of_dec (neg : bool) (M E : Z) : num :=
+  let (m, e) := normalise M E in NDec (if neg then - m else m) e FDecimal.
+
+(* fm = FFloat: json.loads(s);  fm = FDecimal: json.loads(s, parse_float=Decimal, parse_constant=Decimal) *)
+Definition dec_conv (fm : fkind) (neg : bool) (M E : Z) : num :=
+  match fm with FFloat => float_of_dec neg M E | FDecimal => decimal_of_dec neg M E end.
+
 Definition int_max_str_digits : nat := 4300.
 
-Definition num_of_lit (l : numlit) : option num :=
+Definition num_of_lit (fm : fkind) (l : numlit) : option num :=
   match nl_frac l, nl_exp l with
   | None, None =>
       if Nat.ltb int_max_str_digits (List.length (nl_int l)) then None     (* ValueError: digit limit *)
@@ -303,7 +311,7 @@ Definition num_of_lit (l : numlit) : option num :=
       let fu := match fp with Some u => u | None => [] end in
       let M := Z.of_N (dval (nl_int l ++ fu)) in
       let X := match ex with Some (ng, u) => let x := Z.of_N (dval u) in if ng then - x else x | None => 0 end in
-      Some (float_of_dec (nl_neg l) M (X - Z.of_nat (List.length fu)))
+      Some (dec_conv fm (nl_neg l) M (X - Z.of_nat (List.length fu)))
   end.
 
 Local Close Scope Z_scope.
@@ -332,9 +340,12 @@ Fixpoint dict_set (k : string) (v : json) (l : list (string * json)) : list (str
 Definition lit (word : string) (v : json) (s : string) : pres :=
   match prefix_rest word s with Some r => POk v r | None => PErr end.
 
+Section Mode.
+Variable fm : fkind.
+
 Definition pnumber (s : string) : pres :=
   match scan_number s with
-  | Some (l, r) => match num_of_lit l with Some n => POk (JNum n) r | None => PErr end
+  | Some (l, r) => match num_of_lit fm l with Some n => POk (JNum n) r | None => PErr end
   | None => PErr
   end.
 
@@ -445,8 +456,9 @@ Definition bom : string := String (ascii_of_N 239) (String (ascii_of_N 187) (Str
 
 Definition enough (s : string) : nat := 2 * String.length s + 2.
 
-(* json.loads(text) for a str; limit = the recursion budget of the calling context *)
-Definition loads (limit : nat) (s : string) : loads_result :=
+(* json.loads(text[, parse_float=Decimal, parse_constant=Decimal]) for a str;
+   limit = the recursion budget of the calling context *)
+Definition loads_mode (limit : nat) (s : string) : loads_result :=
   match prefix_rest bom s with
   | Some _ => LError
   | None =>
@@ -457,3 +469,7 @@ Definition loads (limit : nat) (s : string) : loads_result :=
       | PFuel => LFuel
       end
   end.
+End Mode.
+
+(* plain json.loads *)
+Definition loads : nat -> string -> loads_result := loads_mode FFloat.
